@@ -132,23 +132,137 @@ def fresh_request_factories(ctx, repo):
             if cf is None:
                 continue
             n_cf += 1
-            fresh = False
             what = ast.unparse(cf)[:60]
-            if isinstance(cf, ast.Lambda):
-                b = cf.body
-                fresh = isinstance(b, ast.Call) and call_name(b) in BUILDERS
-            elif isinstance(cf, ast.Attribute) and isinstance(cf.value, ast.Name) and cf.value.id == "self" and fi2.cls is not None:
-                m = repo.method(fi2.cls.short, cf.attr, required=False)
-                if m is not None:
-                    rets = [x.value for x in ast.walk(m.node) if isinstance(x, ast.Return) and x.value is not None]
-                    fresh = bool(rets) and all(isinstance(x, ast.Call) and call_name(x) in BUILDERS for x in rets)
-            elif isinstance(cf, ast.Name) and cf.id == "create_func":
-                fresh = True  # forwarded parameter
+
+            def makes_request(e, owner, depth=0):
+                """does evaluating the CALL expression `e` construct a request (a builder / handler class call, or a
+                method of the owner class all of whose returns do)?"""
+                if depth > 3 or not isinstance(e, ast.Call):
+                    return False
+                nm = call_name(e)
+                if nm in BUILDERS:
+                    return True
+                if isinstance(e.func, ast.Attribute) and isinstance(e.func.value, ast.Name) and e.func.value.id == "self" and owner is not None:
+                    m = repo.method(owner.short, nm, required=False)
+                    if m is not None:
+                        rets = [x.value for x in ast.walk(m.node) if isinstance(x, ast.Return) and x.value is not None]
+                        return bool(rets) and all(makes_request(x, owner, depth + 1) for x in rets)
+                if isinstance(e.func, ast.Name):
+                    m = fi2.mod.functions.get(nm)
+                    if m is not None:
+                        rets = [x.value for x in ast.walk(m.node) if isinstance(x, ast.Return) and x.value is not None]
+                        return bool(rets) and all(makes_request(x, None, depth + 1) for x in rets)
+                return False
+
+            def is_factory(e, depth=0):
+                """does CALLING the value of `e` construct a request each time?"""
+                if isinstance(e, ast.Lambda):
+                    return makes_request(e.body, fi2.cls)
+                if isinstance(e, ast.Attribute):
+                    # a bound method / a builder handed over as the factory: calling it is a call of that function
+                    return makes_request(ast.Call(func=e, args=[], keywords=[]), fi2.cls)
+                if isinstance(e, ast.Call) and call_name(e) == "partial" and e.args:
+                    return is_factory(e.args[0], depth + 1)    # functools.partial(f, ...): calling it calls f
+                if isinstance(e, ast.Name) and e.id == "create_func":
+                    return True  # forwarded parameter
+                if isinstance(e, ast.Name):
+                    # a local name bound once to a factory expression
+                    binds = [x.value for x in ast.walk(fi2.node) if isinstance(x, ast.Assign) and len(x.targets) == 1 and isinstance(x.targets[0], ast.Name) and x.targets[0].id == e.id]
+                    return len(binds) == 1 and depth < 2 and is_factory(binds[0], depth + 1)
+                return False
+            fresh = is_factory(cf)
             ctx.ob("R1", f"{fi2.qual}::create_func-{n_cf}::builds-fresh-request", fresh,
                    f"{fi2.qual}: the factory handed to {r}.get (`{what}`) does not construct a new request on each call: retries re-send one stale handler "
                    f"(its timeout clock started at construction, its sequence number is reused)", loc(fi2, n))
     ctx.floor("R1", "create_func arguments", n_cf, 9)
 
+
+
+def protocol_get_model(ctx, repo, rule):
+    """GeckoAsyncUdpProtocol.get by interpretation: the protocol object is built by its own constructor, its lock is
+    replaced by a model lock, its transport by one that records datagrams; requests are model objects made by a counting
+    factory whose wait_for_response answers on a chosen attempt (or never).  For budgets 0, 1, 3 and the default:
+    one fresh request, one transmission and one wait per attempt, all three while the lock is held; the answered request
+    is returned at once; None exactly when the budget is used up; the lock is free afterwards."""
+    from ..absint import Interp, Native, Obj, Opaque, PyRaise, Undecided
+    from .c16 import build_instance
+    get = repo.own_method(PROTO, "get")
+    cfgmod = repo.mod("config.py")
+    default_budget = repo.try_fold(ast.parse("GeckoConfig.PROTOCOL_RETRY_COUNT", mode="eval").body, get.mod)
+    if not isinstance(default_budget, int):
+        idle = cfgmod.classes.get("_GeckoIdleConfig")
+        default_budget = repo.try_fold(idle.consts.get("PROTOCOL_RETRY_COUNT"), cfgmod) if idle is not None and "PROTOCOL_RETRY_COUNT" in idle.consts else None
+    n = 0
+    for budget, answer_at in ((0, None), (1, None), (3, None), (3, 1), (3, 2), (3, 3), ("default", None)):
+        it = Interp(repo, max_depth=10)
+        log = []
+        state = {"held": 0, "made": 0}
+        proto = build_instance(repo, it, PROTO)
+        lock = Obj(None, {"__enter__": Native(lambda a, k: state.__setitem__("held", state["held"] + 1)), "__exit__": Native(lambda a, k: state.__setitem__("held", state["held"] - 1)),
+                          "locked": Native(lambda a, k: state["held"] > 0)}, name="lock")
+        replaced = 0
+        for k_, v_ in list(proto.attrs.items()):
+            if (isinstance(v_, Obj) and v_.cls is not None and "Lock" in v_.cls.short) or (isinstance(v_, Opaque) and "Lock" in v_.name):
+                proto.attrs[k_] = lock
+                replaced += 1
+        if not replaced:
+            raise AnalysisError(f"{PROTO}: no lock attribute found on the constructed instance - the request lock cannot be modelled")
+        proto.attrs["transport"] = Obj(None, {"sendto": Native(lambda a, k: log.append(("sendto", state["held"]))), "is_closing": Native(lambda a, k: False), "close": Native(lambda a, k: None)}, name="transport")
+        proto.attrs["_transport"] = proto.attrs["transport"]
+        requests = []
+
+        def make(a, k, requests=requests, state=state, log=log, answer_at=answer_at):
+            idx = len(requests) + 1
+            r = Obj(None, {"send_bytes": b"REQ%d" % idx, "last_destination": None, "_idx": idx}, name=f"request{idx}")
+
+            def wait(a2, k2, idx=idx):
+                log.append(("wait", idx, state["held"], len(requests)))
+                return answer_at is not None and idx == answer_at
+            r.attrs["wait_for_response"] = Native(wait, "wait_for_response")
+            requests.append(r)
+            log.append(("create", idx, state["held"]))
+            return r
+
+        def hook(it_, node, callee, args, kwargs):
+            nm = getattr(callee, "name", "")
+            if nm in ("asyncio.sleep",) or getattr(getattr(callee, "fi", None), "name", "") == "config_sleep":
+                log.append(("pause", state["held"]))
+                return None
+            return NotImplemented
+        it.call_hook = hook
+        it.globals["GeckoConfig"] = Obj(cfgmod.classes.get("_GeckoIdleConfig"))
+        kw = {} if budget == "default" else {"retry_count": budget}
+        try:
+            it.steps = 0
+            ret = it.call(get, proto, [Native(make, "create_func"), ("10.1.2.3", 10022)], kw)
+        except PyRaise as e:
+            ret = f"raises {e.what}"
+        except Undecided as e:
+            raise AnalysisError(f"{get.qual} on the model protocol (budget {budget}, answer at {answer_at}): {e}")
+        n += 1
+        nb = default_budget if budget == "default" else budget
+        if not isinstance(nb, int):
+            raise AnalysisError(f"{get.qual}: the default retry budget GeckoConfig.PROTOCOL_RETRY_COUNT does not fold to an integer")
+        attempts = answer_at if answer_at is not None else nb
+        creates = [e for e in log if e[0] == "create"]
+        sends = [e for e in log if e[0] == "sendto"]
+        waits = [e for e in log if e[0] == "wait"]
+        order = [e[0] for e in log if e[0] in ("create", "sendto", "wait")]
+        key = f"{get.qual}::budget={budget}::answer-at={answer_at}"
+        ctx.ob(rule, f"{key}::attempts", len(creates) == attempts and len(sends) == attempts and len(waits) == attempts and order == ["create", "sendto", "wait"] * attempts,
+               f"{get.qual} with a retry budget of {nb}, the reply arriving {'never' if answer_at is None else f'on attempt {answer_at}'}: {len(creates)} request(s) built, {len(sends)} transmission(s), "
+               f"{len(waits)} wait(s), in the order {order[:9]} - expected {attempts} attempt(s) of build, send, wait", get.loc,
+               sample={"rule": rule, "budget": nb, "answer_at": answer_at, "attempts": len(waits)})
+        ctx.ob(rule, f"{key}::waits-on-the-request-just-built", all(w[1] == w[3] for w in waits),
+               f"{get.qual}: a wait is made on request {[w[1] for w in waits]} while {[w[3] for w in waits]} requests had been built: not the request just sent", get.loc)
+        ctx.ob(rule, f"{key}::under-the-lock", all(e[-1] == 1 if e[0] != "wait" else e[2] == 1 for e in creates + sends + waits) and state["held"] == 0,
+               f"{get.qual}: build / send / wait happen with the request lock held {[(e[0], e[2] if e[0] == 'wait' else e[-1]) for e in creates + sends + waits][:6]} times "
+               f"(expected exactly once each) and the lock is held {state['held']} time(s) afterwards: two requests can be outstanding at once and steal each other's replies", get.loc)
+        want = requests[answer_at - 1] if answer_at is not None and len(requests) >= answer_at else None
+        ctx.ob(rule, f"{key}::result", ret is want,
+               f"{get.qual} returns {ret!r}, expected {'the answered request' if want is not None else 'None (budget used up)'}", get.loc)
+    ctx.count(f"{rule}:protocol.get scenarios interpreted", n)
+    ctx.floor(rule, "protocol.get scenarios interpreted", n, 7)
 
 
 def check(ctx):
@@ -173,7 +287,16 @@ def check(ctx):
 
     # ---- R1 ---------------------------------------------------------------
     get = repo.own_method(PROTO, "get")
-    r = retry_loop_rules(ctx, repo, get, "R1", "self")
+    protocol_get_model(ctx, repo, "R1")
+    # the loop's shape, where it is the audited one (a `while retry_count > 0` / `for _ in range(retry_count)` loop): the
+    # path rules add "on every path" to what the scenarios show; another shape is decided by the scenarios alone
+    from ..pathrules import loop_heads as _lh1
+    _g1 = cfg_of(get)
+    _heads1 = [h_ for h_ in _lh1(_g1) if (h_.kind == "test" and "retry_count" in names_in(h_.ast)) or
+               (h_.kind == "for" and isinstance(h_.ast.iter, ast.Call) and isinstance(h_.ast.iter.func, ast.Name) and h_.ast.iter.func.id == "range")]
+    r = retry_loop_rules(ctx, repo, get, "R1", "self") if len(_heads1) == 1 else None
+    if r is None and len(_heads1) != 1:
+        ctx.note(f"{get.qual}: retry loop shape not the audited one - decided by the interpreted scenarios only")
     if r:
         g, h, req = r
         for n in g.stmt_nodes():
@@ -211,15 +334,23 @@ def check(ctx):
 
     # ---- R2 lock ------------------------------------------------------------
     nw = 0
+    # the attribute the Lock property hands out: inside the protocol class `self.<that>` IS self.Lock
+    lock_attrs = {"Lock"}
+    lp = repo.method(PROTO, "Lock", required=False)
+    if lp is not None:
+        for x in ast.walk(lp.node):
+            if isinstance(x, ast.Return) and isinstance(x.value, ast.Attribute) and isinstance(x.value.value, ast.Name) and x.value.value.id == "self":
+                lock_attrs.add(x.value.attr)
     for fi in repo.all_functions():
         for n in walk_no_nested(fi.node):
             if isinstance(n, ast.Call) and call_name(n) == "wait_for_response" and fi.name != "wait_for_response":
                 nw += 1
                 arg = ast.unparse(n.args[0]) if n.args else ""
 
-                def pred(e, w, arg=arg):
+                def pred(e, w, arg=arg, fi=fi):
                     t = ast.unparse(e)
-                    return isinstance(w, ast.AsyncWith) and (t == f"{arg}.Lock" or (arg == "self" and t == "self.Lock"))
+                    own = arg == "self" and fi.cls is not None and fi.cls.short == PROTO
+                    return isinstance(w, ast.AsyncWith) and (t == f"{arg}.Lock" or (own and t in {f"self.{a_}" for a_ in lock_attrs}))
 
                 ok = lexically_inside_with(fi.node, n, pred)
                 ctx.ob("R2", f"{fi.qual}::wait-inside-lock", ok,
@@ -324,7 +455,11 @@ def check(ctx):
     ctx.ob("R4", "is_responding_to_pings::derives-from-last-ping", "_last_ping" in txt and "PING_FREQUENCY_IN_SECONDS" in txt,
            "is_responding_to_pings no longer compares the age of the last ping with the ping frequency", irp.loc)
     ic = repo.own_method("GeckoAsyncSpa", "is_connected")
-    ctx.ob("R4", "is_connected::reads-flag", "self._is_connected" in ast.unparse(ic.node), "is_connected does not read the connected flag", ic.loc)
+    from ..facts import connected_flag_stores as _cfs
+    _con = repo.method("GeckoAsyncSpa", "_connect")
+    _marks, _fa = _cfs(repo, "GeckoAsyncSpa", _con, True)
+    ctx.ob("R4", "is_connected::reads-flag", bool(_fa) and bool(_marks),
+           f"is_connected reads {sorted(_fa)}; no store in _connect makes it read True: the gate does not follow the connection", ic.loc)
 
     # ---- R4 (evidence): what opens the ping gate --------------------------------------------------------------
     # the attribute is_responding_to_pings is computed from may be advanced inside the ping loop only on the path where a
